@@ -354,7 +354,8 @@ def grep_cli(ctx, syms):
     if not body or body != body.strip() or "\n" in body:
         return
     R = ctx.rng
-    hit_lines = [3, 9] if R.random() < 0.7 else []
+    # hits in the middle, on the very first and on the very last line of the file
+    hit_lines = R.choice([[3, 9], [3, 9], [0, 5], [0], [13], [0, 13], []])
     lines = []
     for i in range(14):
         if i in hit_lines:
